@@ -55,15 +55,17 @@ func FmtDiffs(input string) ([]FmtDiff, error) {
 					NewText:  "",
 				})
 			}
-		} else if diff.FromLine > lastEnd+1 {
+		} else if diff.FromLine > lastEnd {
 			// FromLine == LastEnd  means no gap
-			// FromLine == LastEnd + 1  is one line gap, OK
-			// FromLine > LastEnd + 1 should be one line
-			out = append(out, FmtDiff{
-				FromLine: lastEnd,
-				ToLine:   diff.FromLine,
-				NewText:  "\n",
-			})
+			// any gap becomes a single empty line, unless it is exactly that
+			// already (a line holding only whitespace is not)
+			if lines.rangeLines(lastEnd, diff.FromLine) != "\n" {
+				out = append(out, FmtDiff{
+					FromLine: lastEnd,
+					ToLine:   diff.FromLine,
+					NewText:  "\n",
+				})
+			}
 		}
 		existing := lines.rangeLines(diff.FromLine, diff.ToLine)
 		if existing != diff.NewText {
